@@ -386,8 +386,13 @@ func genCase(t *rapid.T) Case {
 			c.CertIssuer, c.Distinct = false, false
 		}
 	default:
-		c.N1 = rapid.IntRange(100000, 200000).Draw(t, "n1")
-		c.N2 = c.N1*rapid.IntRange(3, 4).Draw(t, "factor") + rapid.IntRange(0, 4999).Draw(t, "odd")
+		// the quick tier keeps the drawn disk-path pairs below 4*10^5 entries so that the phase stays within a minute
+		hiN1, hiF := 200000, 4
+		if !ev.Thorough() {
+			hiN1, hiF = 120000, 3
+		}
+		c.N1 = rapid.IntRange(100000, hiN1).Draw(t, "n1")
+		c.N2 = c.N1*rapid.IntRange(3, hiF).Draw(t, "factor") + rapid.IntRange(0, 4999).Draw(t, "odd")
 		c.Via = rapid.SampledFrom([]string{"file", "http"}).Draw(t, "via")
 		c.Late = rapid.Bool().Draw(t, "late")
 		c.DebugLog = rapid.Bool().Draw(t, "debugLog")
